@@ -299,28 +299,9 @@ pub fn is_simple_count_star<'a>(
 /// Handles NULL values (NULL < any other value) and type coercion
 /// between integers and floats.
 pub fn compare_owned_values(a: &OwnedValue, b: &OwnedValue) -> Ordering {
-    match (a, b) {
-        (OwnedValue::Null, OwnedValue::Null) => Ordering::Equal,
-        (OwnedValue::Null, _) => Ordering::Less,
-        (_, OwnedValue::Null) => Ordering::Greater,
-        (OwnedValue::Int(a), OwnedValue::Int(b)) => a.cmp(b),
-        (OwnedValue::Float(a), OwnedValue::Float(b)) => {
-            a.partial_cmp(b).unwrap_or(Ordering::Equal)
-        }
-        (OwnedValue::Int(a), OwnedValue::Float(b)) => {
-            (*a as f64).partial_cmp(b).unwrap_or(Ordering::Equal)
-        }
-        (OwnedValue::Float(a), OwnedValue::Int(b)) => {
-            a.partial_cmp(&(*b as f64)).unwrap_or(Ordering::Equal)
-        }
-        (OwnedValue::Text(a), OwnedValue::Text(b)) => a.cmp(b),
-        (OwnedValue::Bool(a), OwnedValue::Bool(b)) => a.cmp(b),
-        (OwnedValue::Blob(a), OwnedValue::Blob(b)) => a.cmp(b),
-        (OwnedValue::Date(a), OwnedValue::Date(b)) => a.cmp(b),
-        (OwnedValue::Time(a), OwnedValue::Time(b)) => a.cmp(b),
-        (OwnedValue::Timestamp(a), OwnedValue::Timestamp(b)) => a.cmp(b),
-        _ => Ordering::Equal,
-    }
+    // the total order ORDER BY uses everywhere else: NULL lowest, NaN after every number,
+    // values of different types ranked by type
+    a.to_value().compare_for_sort(&b.to_value())
 }
 
 /// Materializes all rows from a table into owned values.
